@@ -838,9 +838,14 @@ def resolve_fills(
     block_context: Optional[BlockContext] = context.render_context.get(BLOCK_CONTEXT_KEY)
     if block_context is not None:
         block_context = _copy_block_context(block_context)
+    else:
+        # The `{% component %}` tag is written in a template that is not part of any `{% extends %}` family.
+        # A `{% block %}` in its fills renders its own content, and must not be resolved against the family
+        # of the component (or page) inside which the fill happens to be rendered.
+        block_context = BlockContext()
 
     # Likewise `{{ block.super }}` inside a fill means the parent of the `{% block %}` in which the fill is written.
-    block_node: Optional[BlockNode] = context.get("block") if block_context is not None else None
+    block_node: Optional[BlockNode] = context.get("block")
     if not isinstance(block_node, BlockNode):
         block_node = None
 
